@@ -1,8 +1,19 @@
 #!/bin/bash
-# usage: try_patch.sh <patch> <check id> [vcheck args...] : applies patch to /repo, runs the check, reverts.
-p=$1; id=$2; shift 2
-git -C /repo apply $p || { echo "patch does not apply"; exit 2; }
-/verif/bin/vcheck run $id "$@" 2>&1 | tail -6 | cut -c1-700
+# usage: try_patch.sh <patch> <check id> [vcheck args...]
+# Runs a check against a scratch worktree of /repo HEAD with the patch applied (VERIF_REPO points the
+# driver at it); /repo itself is never touched, so background runs against /repo are not disturbed.
+# Evidence/replays go to a scratch VERIF_ROOT copy so that /verif/evidence keeps describing /repo itself.
+p=$(readlink -f "$1"); id=$2; shift 2
+wt=$(mktemp -d /tmp/wt-try-XXXXXX); rmdir $wt
+git -C /repo worktree add -q --detach $wt HEAD || { echo "cannot create worktree"; exit 2; }
+cleanup() { git -C /repo worktree remove --force $wt 2>/dev/null; rm -rf $wt $vr; }
+vr=$(mktemp -d /tmp/vroot-XXXXXX)
+trap cleanup EXIT
+git -C $wt apply "$p" || { echo "patch does not apply"; exit 2; }
+# scratch VERIF_ROOT: harness sources + known findings by symlink, evidence/replays local
+ln -s /verif/h $vr/h; ln -s /verif/known_findings.json $vr/known_findings.json
+VERIF_REPO=$wt VERIF_ROOT=$vr /verif/bin/vcheck run $id "$@" 2>&1 | tail -8 | cut -c1-700
 rc=${PIPESTATUS[0]}
-git -C /repo checkout -- . 
+if [ -n "$KEEP_REPLAYS" ] && [ -d $vr/replays ]; then mkdir -p "$KEEP_REPLAYS"; cp -r $vr/replays/* "$KEEP_REPLAYS"/; fi
 echo "exit=$rc"
+exit $rc
